@@ -39,6 +39,8 @@ def rdf11(st) -> bool:
         return False
     if len(st) > 3 and not (st[3] is DefaultGraph or isinstance(st[3], (IRI, BlankNode))):
         return False
+    if len(st) > 3 and isinstance(st[3], IRI) and st[3]._iri == "":
+        return False  # rdflib replaces a falsy graph identifier by a fresh blank node
     for t in st:
         if isinstance(t, BlankNode) and t._identifier == "":
             return False
